@@ -2,6 +2,7 @@
    implementation (cases evaluated with vm_compute in work/C13/Cases_k.v).  Imports Model only. *)
 From Verif Require Export Common.Base C13.Model.
 From Verif Require Import Generated.C13CfgSchema.
+From Verif Require Export C13.Checkers.
 From Coq Require Import String.
 
 Definition path_eqb (a b : path) : bool := list_eqb String.eqb a b.
@@ -147,6 +148,12 @@ Inductive vcase : Type :=
 (* Extensions.NotifyConfig: the collector's conf, the extensions in start order (None = no
    ConfigWatcher, Some merges = what the watcher does to its copy); observed per watcher: what it
    was handed and what it holds in the end; and the collector's conf afterwards *)
+(* a collector started and reloaded: the encodings of the configurations loaded in turn, and what
+   the ConfigWatcher extension was handed after each load *)
+| CReload (encs : list (bool * cv)) (obs : list cv)
+(* a section whose ids are [ids] loaded with factories for the types [known]; observed: the id the
+   "unknown type" error names (None = the load did not fail that way) *)
+| CTypes (known ids : list string) (obs : option string)
 (* the encoder on a synthetic value of every shape; observed: its output (None = error) *)
 | CEnc (v : xv) (obs : option cv)
 | CNotify (conf : cv) (exts : list (option (list (path * cv)))) (obs : list (cv * cv)) (after : cv).
@@ -179,6 +186,12 @@ Definition check_case (c : vcase) : bool :=
   | CRound name d v obs => tv_eqb (decode_model name (o_strip d) (encode_o v)) obs
   | CSec name d sec obs =>
       list_eqb (fun a b => String.eqb (fst a) (fst b) && tv_eqb (snd a) (snd b)) (decode_section name d sec) obs
+  | CReload encs obs => list_eqb (fun a b => cv_eqm a b && cv_eqm b a) (run_loads_v encs) obs
+  | CTypes known ids obs =>
+      match obs with
+      | None => is_nil (unknown_type_ids known ids)
+      | Some id => str_mem id (unknown_type_ids known ids)
+      end
   | CEnc v obs =>
       match obs with
       | None => x_bad v
@@ -188,6 +201,73 @@ Definition check_case (c : vcase) : bool :=
       let '(rs, conf') := notify conf exts in
       list_eqb (fun a b => cv_eqm (fst a) (fst b) && cv_eqm (snd a) (snd b)) rs obs && cv_eqm conf' after
   end.
+
+(* ---- the property's clauses decided on the OBSERVED behaviour (Checkers.v; soundness ProofsC.v).
+   [None]: no clause is violated by this observation; [Some clause]: the named clause is.  This is
+   independent of the model's step-by-step output: a case can disagree with the model and still
+   satisfy every clause (then there is no failing input), and a case that agrees is checked too. *)
+Definition first_clause (l : list (string * bool)) : option string :=
+  option_map fst (find (fun e => negb (snd e)) l).
+
+Definition prop_clause (c : vcase) : option string :=
+  match c with
+  | CWalk _ t obs =>
+      first_clause [("every nested validation rule is evaluated and reported with its path"%string, walk_complete_b t obs);
+                    ("only failing reachable validators are reported"%string, walk_sound_b t obs)]
+  | CCfg g c oc op oall =>
+      first_clause [("a dangling / duplicated / ambiguous reference, an empty pipeline or an invalid nested value is rejected"%string,
+                     negb (is_nil oall) || wf_b g c);
+                    ("a well-formed configuration is accepted"%string, is_nil oall || negb (wf_b g c))]
+  | CPipe p obs =>
+      first_clause [("a pipeline without receivers or exporters, or with a processor listed twice, is rejected"%string,
+                     Bool.eqb (match obs with None => true | Some _ => false end) (shape_ok_b p))]
+  | CDec paths name v obs =>
+      match lookup name schema with
+      | Some t => first_clause [("an unknown key at any depth is rejected with an error naming it"%string,
+                                 if paths then unknown_named_b t v obs else unknown_keys_named_b t v obs)]
+      | None => Some "unknown schema entry"%string
+      end
+  | CFaith name d m obs =>
+      first_clause [("each written key is reflected in the typed configuration"%string, written_reflected_b d m obs)]
+  | CSec name d sec obs =>
+      first_clause [("each written key is reflected in the typed configuration of its own instance"%string,
+                     forallb (fun e => match lookup (fst e) obs with
+                                       | Some o => written_reflected_b d (snd e) o
+                                       | None => false
+                                       end) sec)]
+  | CEff v obs => first_clause [("secrets are redacted in the effective configuration"%string, no_secret_b (ev_plains v) obs)]
+  | CEnc v (Some c) =>
+      first_clause [("secrets are redacted in the effective configuration"%string, no_secret_b (x_plains v) c);
+                    ("each visible setting is in the effective configuration with its value, and nothing else"%string,
+                     cv_eqm (encode_x v) c && cv_eqm c (encode_x v))]
+  | CEnc _ None => None
+  | CMis k w obs =>
+      first_clause [("a value of the wrong kind is rejected"%string, negb (fam_mismatch_b k w) || is_err obs);
+                    ("an accepted value is the written value"%string,
+                     is_err obs || is_keep obs || truncating_b k w || same_value_b w obs)]
+  | CNotify conf exts obs after =>
+      first_clause [("every ConfigWatcher is handed the effective configuration"%string,
+                     forallb (fun r => cv_eqm (fst r) conf && cv_eqm conf (fst r)) obs);
+                    ("the collector's effective configuration is not changed by the watchers"%string,
+                     cv_eqm after conf && cv_eqm conf after)]
+  | CReload encs obs =>
+      first_clause [("a configuration that does not validate is never made effective"%string,
+                     forallb (fun o => existsb (fun e => fst e && cv_eqm (snd e) o && cv_eqm o (snd e)) encs) obs);
+                    ("after every (re)load the effective configuration is that of the configuration loaded last"%string,
+                     list_eqb (fun a b => cv_eqm a b && cv_eqm b a) (run_loads_v encs) obs)]
+  | CTypes known ids obs =>
+      first_clause [("a component of a type that does not exist is rejected with an error naming it"%string,
+                     match obs with
+                     | None => is_nil (unknown_type_ids known ids)
+                     | Some id => str_mem id (unknown_type_ids known ids)
+                     end)]
+  | CRound _ _ _ _ => None
+  end.
+
+Definition prop_ok (c : vcase) : bool := match prop_clause c with None => true | Some _ => false end.
+
+(* what the check evaluates on every case: agreement with the model AND the clauses on the observation *)
+Definition check_all (c : vcase) : bool := check_case c && prop_ok c.
 
 (* model outputs, for replay files *)
 Inductive vout : Type :=
@@ -200,7 +280,8 @@ Inductive vout : Type :=
 | OMis (r : dres)
 | OSec (l : list (string * tv))
 | ONotify (r : list (cv * cv) * cv)
-| OEnc (c : option cv).
+| OEnc (c : option cv)
+| OReload (l : list cv).
 
 Definition model_out (c : vcase) : vout :=
   match c with
@@ -215,4 +296,6 @@ Definition model_out (c : vcase) : vout :=
   | CSec name d sec _ => OSec (decode_section name d sec)
   | CNotify conf exts _ _ => ONotify (notify conf exts)
   | CEnc v _ => OEnc (marshal_x v)
+  | CReload encs _ => OReload (run_loads_v encs)
+  | CTypes known ids _ => OReload (map (fun s => CScalar s) (unknown_type_ids known ids))
   end.
